@@ -110,6 +110,20 @@ def run(ctx):
             cases.append({"files": files, "saved": saved_files, "lost": lost, "nv": nv, "fs": fs, "kind": kind, "comment": len(comment),
                           "vline": P1.line_verify("mem", D + "/arc.par", True, fs),
                           "rline": P1.line_repair("mem" if rng.random() < 0.7 else "real", D + "/arc.par", rng.random() < 0.5, fs, dirs=[D])})
+    # very many entries that are NOT saved in the parity set: the limit of 256 concerns the files in the set (data + parity
+    # volumes), so 252 listed-only entries + 3 saved files + 3 volumes, and 254 + 2 + 1, are ordinary conformant sets
+    for nuns, nsav, nv in ((252, 3, 3), (254, 2, 1)):
+        files = [("u%03d" % k_, bytes([k_ % 251]), False) for k_ in range(nuns)]
+        savedf = [("saved%d.bin" % k_, L.gen_content(rng, "random", 20 + 7 * k_)) for k_ in range(nsav)]
+        files[100:100] = [(n_, d_, True) for n_, d_ in savedf]
+        ss = P1.SpecSet1(files, nv, b"many entries")
+        arc = ss.archive("arc")
+        for lost in ([], [n_ for n_, _ in savedf][:nv]):
+            fs = {D + "/" + n_: d_ for n_, d_ in savedf if n_ not in lost}
+            fs.update(arc)
+            cases.append({"files": files, "saved": savedf, "lost": lost, "nv": nv, "fs": fs, "kind": "non-saved entries x%d" % nuns, "comment": 12,
+                          "vline": P1.line_verify("mem", D + "/arc.par", True, fs),
+                          "rline": P1.line_repair("mem", D + "/arc.par", False, fs, dirs=[D])})
     vi, vm = c04.run_both(ctx, vh, model, [c["vline"] for c in cases])
     ri, rm = c04.run_both(ctx, vh, model, [c["rline"] for c in cases])
     for c, a, b, x, y in zip(cases, vi, vm, ri, rm):
